@@ -276,8 +276,9 @@ def add_macros(p: dict, r: random.Random, n: int | None = None) -> dict:
         params = [f"$p{j}" for j in range(r.choice([0, 0, 1, 2, 3]))]
         body = macro_body(r)
         rename_labels(body, f"_m{i}")
-        if params:
-            body.insert(r.randint(0, len(body)), {"t": "op", "name": "Use", "args": [{"k": "var", "v": v} for v in params]})
+        used = [v for v in params if r.random() < 0.7]
+        if used:
+            body.insert(r.randint(0, len(body)), {"t": "op", "name": "Use", "args": [{"k": "var", "v": v} for v in used]})
         macros.append({"name": fresh("mac"), "params": params, "body": body})
     # forest: macro i may be called by exactly one macro with a smaller index
     for i in range(1, n):
@@ -498,9 +499,19 @@ def m_not_on_bit(p: dict, r: random.Random, routine_only: bool = False) -> dict 
 
 
 def m_unknown_macro(p: dict, r: random.Random, routine_only: bool = False) -> dict | None:
+    call = {"t": "macrocall", "name": fresh("nomacro"), "args": [{"k": "int", "v": 1}] * r.choice([0, 1, 2])}
+    v = r.random()
+    if v < 0.15 and not routine_only:
+        # in a macro that nothing calls: still compiled, still rejected
+        p.setdefault("macros", []).append({"name": fresh("uncalled"), "params": [], "body": [_plain(r), call]})
+        return {"where": "uncalled macro", "variant": "uncalled_macro"}
     b = r.choice(blocks(p, macros=not routine_only))
-    _ins(r, b["ss"], {"t": "macrocall", "name": fresh("nomacro"), "args": [{"k": "int", "v": 1}] * r.choice([0, 1, 2])})
-    return {"where": b["where"]}
+    if v < 0.3:
+        # behind a statement that ends the control flow: unreachable, still rejected
+        b["ss"] += [{"t": "ctrl", "k": r.choice(["end", "return", "hold"])}, call]
+        return {"where": b["where"], "variant": "unreachable"}
+    _ins(r, b["ss"], call)
+    return {"where": b["where"], "variant": "plain"}
 
 
 def m_recursive_macros(p: dict, r: random.Random, routine_only: bool = False) -> dict | None:
@@ -522,18 +533,74 @@ def m_recursive_macros(p: dict, r: random.Random, routine_only: bool = False) ->
     return {"cycle": k}
 
 
-def m_too_few_args(p: dict, r: random.Random, routine_only: bool = False) -> dict | None:
-    n = r.choice([1, 2, 3])
+USE_PATTERNS = ["all", "none", "first_unused", "last_unused", "nested_only", "condition_only", "context_only", "assign_target_only"]
+
+
+def macro_with_params(r: random.Random, n: int, pattern: str, extra: list[dict]) -> dict:
+    """a macro with n parameters that uses them according to `pattern`; helper macros it needs are appended to `extra`"""
     params = [f"$q{i}" for i in range(n)]
-    m = {"name": fresh("tfmac"), "params": params, "body": [{"t": "op", "name": "Use", "args": [{"k": "var", "v": v} for v in params]}]}
-    p.setdefault("macros", []).insert(r.randint(0, len(p.get("macros", []))), m)
+    if pattern == "none":
+        used: list[str] = []
+    elif pattern == "first_unused":
+        used = params[1:]
+    elif pattern == "last_unused":
+        used = params[:-1]
+    else:
+        used = list(params)
+    v = lambda x: {"k": "var", "v": x}  # noqa: E731
+    body: list[dict] = [_plain(r)]
+    if pattern == "nested_only":
+        inner = {"name": fresh("tfinner"), "params": ["$x"], "body": [{"t": "op", "name": "Use", "args": [v("$x")]}]}
+        extra.append(inner)
+        body += [{"t": "macrocall", "name": inner["name"], "args": [v(x)]} for x in used]
+    elif pattern == "condition_only":
+        body += [{"t": "if", "branches": [{"not": False, "headers": [{"h": "op", "left": v(x), "cmp": "==", "right": {"k": "int", "v": 1}, "value_of": False}],
+                                             "body": [_plain(r)]}], "else": None} for x in used[:1]]
+        body += [{"t": "switch", "header": {"s": "var", "v": v(x)}, "cases": [_case(r, [_plain(r)])]} for x in used[1:]]
+    elif pattern == "context_only":
+        body += [{"t": "with", "kind": "actor", "target": v(x), "stmt": _plain(r)} if k % 2 == 0 else
+                 {"t": "op", "name": "Turn", "args": [], "ctx": {"kind": "object", "target": v(x)}} for k, x in enumerate(used)]
+    elif pattern == "assign_target_only":
+        body += [{"t": "assign", "form": "regular", "target": v(x), "index": None, "op": "=", "value": {"k": "int", "v": 3}, "value_of": False} for x in used]
+    elif used:
+        body.append({"t": "op", "name": "Use", "args": [v(x) for x in used]})
+    return {"name": fresh("tfmac"), "params": params, "body": body}
+
+
+def m_too_few_args(p: dict, r: random.Random, routine_only: bool = False) -> dict | None:
+    """a call with fewer arguments than the macro has parameters — whether or not the macro body uses the parameter that
+    gets no value (unused, used only in a nested call / a condition / a context / as assignment target); called from a
+    routine, from another macro, or through a macro that is called with all its arguments"""
+    n = r.choice([1, 2, 2, 3, 3])
+    pattern = r.choice(USE_PATTERNS)
+    extra: list[dict] = []
+    m = macro_with_params(r, n, pattern, extra)
+    p.setdefault("macros", [])
+    for x in extra + [m]:
+        p["macros"].insert(r.randint(0, len(p["macros"])), x)
+    k = r.randint(0, n - 1)
+    call = call_of(r, m, nargs=k)
+    site = "routine"
+    if not routine_only and r.random() < 0.35:
+        # from another macro: directly in its body; the caller itself is called correctly from a routine, or never
+        caller = {"name": fresh("tfcaller"), "params": ["$c"], "body": [_plain(r), call]}
+        if k and r.random() < 0.5:
+            call["args"][0] = {"k": "var", "v": "$c"}
+        p["macros"].append(caller)
+        site = "macro"
+        if r.random() < 0.6:
+            rb = blocks(p, macros=False)
+            if rb:
+                _ins(r, r.choice(rb)["ss"], call_of(r, caller, nargs=1))
+                site = "macro_called"
+        return {"where": "m:" + caller["name"], "params": n, "args": k, "pattern": pattern, "site": site}
     bl = blocks(p, macros=not routine_only)
-    bl = [b for b in bl if b["where"] != "m:" + m["name"]]
+    bl = [b for b in bl if b["where"] not in ["m:" + x["name"] for x in extra + [m]]]
     if not bl:
         return None
     b = r.choice(bl)
-    _ins(r, b["ss"], call_of(r, m, nargs=r.randint(0, n - 1)))
-    return {"where": b["where"], "params": n}
+    _ins(r, b["ss"], call)
+    return {"where": b["where"], "params": n, "args": k, "pattern": pattern, "site": "routine" if b["where"].startswith("r") else "macro"}
 
 
 def m_string_case_in_switch(p: dict, r: random.Random, routine_only: bool = False) -> dict | None:
@@ -728,7 +795,7 @@ def _main(r: random.Random, imports: list[str], calls: list[str]) -> dict:
 
 WORLD_KINDS = ["import_ok", "import_ok_diamond", "import_ok_lookup", "missing_import", "missing_import_nested", "cyclic_import_self",
                "cyclic_import_two", "cyclic_import_not_through_root", "cyclic_import_long", "routines_in_imported_file",
-               "routines_in_imported_ssbscript_file", "defect_in_imported_macro", "import_of_directory"]
+               "routines_in_imported_ssbscript_file", "defect_in_imported_macro", "import_of_directory", "too_few_arguments_for_imported_macro"]
 
 
 def gen_world(r: random.Random, kind: str) -> dict:
@@ -785,6 +852,20 @@ def gen_world(r: random.Random, kind: str) -> dict:
         sh = r.choice(["break_outside_case", "continue_outside_loop", "unknown_macro", "label_in_with_block", "two_defaults"])
         ALL_MUTATORS[sh](lib, r, False)
         files = {"main.exps": _main(r, ["./lib.exps"], [a]), "lib.exps": lib}
+        expect = True
+    elif kind == "too_few_arguments_for_imported_macro":
+        extra: list[dict] = []
+        n = r.choice([1, 2, 3])
+        m = macro_with_params(r, n, r.choice(USE_PATTERNS), extra)
+        lib = {"imports": [], "routines": [], "macros": extra + [m]}
+        main = _main(r, ["./lib.exps"], [])
+        call = call_of(r, m, nargs=r.randint(0, n - 1))
+        if r.random() < 0.3:
+            # through a macro of the compiled file
+            main["macros"].append({"name": fresh("via"), "params": [], "body": [call]})
+            call = {"t": "macrocall", "name": main["macros"][-1]["name"], "args": []}
+        _ins(r, r.choice(blocks(main, macros=False))["ss"], call)
+        files = {"main.exps": main, "lib.exps": lib}
         expect = True
     elif kind == "import_of_directory":
         files = {"main.exps": _main(r, [r.choice([".", "./", "./sub", ""])], []), "sub": {"dir": True}}
